@@ -478,7 +478,7 @@ func (opt *Option) Save(a ...string) error {
 		return nil
 	case StringMapType:
 		for _, e := range a {
-			keyValue := strings.Split(e, "=")
+			keyValue := strings.SplitN(e, "=", 2)
 			if len(keyValue) < 2 {
 				// TODO: Create error type for use in tests with errors.Is
 				return fmt.Errorf(text.ErrorArgumentIsNotKeyValue, opt.UsedAlias)
